@@ -18,6 +18,7 @@ sys.path.insert(0, ROOT)
 from chisym import harness as H  # noqa: E402
 
 MODULES = {
+    'C01': 'harness.c01',
     'C04': 'harness.c04',
 }
 
